@@ -28,6 +28,7 @@ structure IndCase where
   nVals : Nat := 0              -- values actually compared (not exempt)
   nSigs : Nat := 0              -- signals actually compared
   nSteps : Nat := 0
+  docRangeSeen : Bool := false  -- a formula-level doc-range excess was already reported for this case (reported once; range checks go on)
   nExV : Nat := 0               -- steps with at least one value slot legitimately exempt (comparison on, nothing to compare)
 
 inductive CaseState where
@@ -379,7 +380,15 @@ def stepIndicator (d : Drv) (line : String) : Drv × Option String :=
                    then none else some m
                  | _, _ => some m)
               | none => none
-            if so.borderline then ({ d with cs := .ind i, exempt := d.exempt + 1 }, none)
+            if so.borderline then
+              -- ADX while the exact averaged true range is zero (prices have stopped moving): the values cannot be compared,
+              -- but whatever leaves its range there is a quotient of rounding residue behind the exact `true_range == 0.0` guard
+              match rbad with
+              | some m =>
+                if i.name == "AverageDirectionalIndex" && i.cmpRange then
+                  imismatch d "ind-range" (i.name ++ ":" ++ (m.splitOn " ").headD "" ++ "-residue") m line (.ind { i with cmpRange := false })
+                else ({ d with cs := .ind i, exempt := d.exempt + 1 }, none)
+              | none => ({ d with cs := .ind i, exempt := d.exempt + 1 }, none)
             else match rbad, vbad, sbad with
             | some m, _, _ =>
               -- a range violation at a slot whose exact denominator (or guard) is zero up to the allowance is the
@@ -412,7 +421,12 @@ def stepIndicator (d : Drv) (line : String) : Drv × Option String :=
               -- no guard in the code and a zero exact denominator: the formula is not defined there (zero total volume)
               if undefined then ({ d with cs := .ind i, exempt := d.exempt + 1 }, none)
               else if ((m.splitOn " ").headD "").endsWith "doc-range" then
-                imismatch d "ind-range" (i.name ++ ":" ++ (m.splitOn " ").headD "") m line (.ind { i with cmpRange := false })
+                -- a documented range the formula does not imply (DESIGN §7.1) — but a value that leaves it where the exact
+                -- denominator vanishes is the quotient of rounding residue, a different defect with its own signature
+                if residue then
+                  imismatch d "ind-range" (i.name ++ ":" ++ (m.splitOn " ").headD "" ++ "-residue") m line (.ind { i with cmpRange := false })
+                else if i.docRangeSeen then ({ d with cs := .ind i, exempt := d.exempt + 1 }, none)
+                else imismatch d "ind-range" (i.name ++ ":" ++ (m.splitOn " ").headD "") m line (.ind { i with docRangeSeen := true })
               else if residue then
                 imismatch d "ind-range" (i.name ++ ":" ++ (m.splitOn " ").headD "" ++ "-residue") m line (.ind { i with cmpRange := false })
               else imismatch d "ind-range" (tag m) m line (.ind { i with cmpRange := false })
